@@ -914,4 +914,89 @@ func c04partD(c *drv.Ctx, rows []c04row, u *c04unit, fail func(byte, int, string
 		return
 	}
 	c.Outcome("d:conforms")
+	c04positioned(c, rows, u, fail)
+}
+
+// c04positioned: the walk entered from states other than the constructed one. A fresh iterator is
+// placed (its position I set through reflection) one step before each boundary element of the range
+// - 1, 2, n-1, n, n+1, P-1 - and stepped once; the reference says which element comes next. A full
+// walk of a large group takes 2^32 steps, these are the same transitions reached directly.
+func c04positioned(c *drv.Ctx, rows []c04row, u *c04unit, fail func(byte, int, string, string, any)) {
+	r := rows[u.row]
+	n := u.n
+	targets := []uint64{1, 2, uint64(n) - 1, uint64(n), uint64(n) + 1, r.P - 1, uint64(n) / 2}
+	seen := map[uint64]bool{}
+	for _, tg := range targets {
+		if tg == 0 || tg >= r.P || seen[tg] {
+			continue
+		}
+		seen[tg] = true
+		it, err, pan := c04new(n, u.r1, u.r2)
+		if pan != nil || err != nil || it == nil {
+			return // reported by the caller
+		}
+		st := c04stateOf(it)
+		f := reflect.ValueOf(it).Elem().FieldByName("I")
+		if st.Flags&15 != 0 || !f.IsValid() || f.Type() != reflect.TypeOf((*big.Int)(nil)) {
+			c.Outcome("e:skipped")
+			return
+		}
+		ip := reflect.NewAt(f.Type(), unsafe.Pointer(f.UnsafeAddr())).Elem().Interface().(*big.Int)
+		// predecessor of the target on the walk: tg * G'^-1 mod P, G'^-1 = G'^(P-2) mod P
+		inv, b, e := uint64(1), st.G, st.P-2
+		for e > 0 {
+			if e&1 == 1 {
+				inv = c04mulmod(inv, b, st.P)
+			}
+			b = c04mulmod(b, b, st.P)
+			e >>= 1
+		}
+		pred := c04mulmod(tg, inv, st.P)
+		if c04mulmod(pred, st.G, st.P) != tg {
+			c.Infra("c04 positioned: inverse of G'=%d mod %d wrong", st.G, st.P)
+			return
+		}
+		ip.SetUint64(pred)
+		// reference: from pred, the next element <= n; the end if the walk meets its first value before that
+		y := pred
+		end := false
+		for {
+			y = c04mulmod(y, st.G, st.P)
+			if y == st.S {
+				end = true
+				break
+			}
+			if y <= uint64(n) {
+				break
+			}
+		}
+		c.Eval(1)
+		key := fmt.Sprintf("e:row%d:n=%d:r1=%d:r2=%d:before=%d", r.K, n, u.r1, u.r2, tg)
+		rep := map[string]any{"part": "c04", "section": "e", "n": n, "draw1": u.r1, "draw2": u.r2, "row": r.K, "P": r.P, "placed_before": tg}
+		bad := ""
+		func() {
+			defer func() {
+				if p := recover(); p != nil {
+					bad = fmt.Sprintf("panic: %v", p)
+				}
+			}()
+			more := it.Next()
+			switch {
+			case end && more:
+				bad = fmt.Sprintf("the walk is back at its first value %d, Next returned true (value %v)", st.S, it.Int())
+			case !end && !more:
+				bad = fmt.Sprintf("Next returned false, the walk continues with %d", y)
+			case !end && (it.Int() == nil || !it.Int().IsUint64() || it.Int().Uint64() != y):
+				bad = fmt.Sprintf("Next yields %v, the walk continues with %d", it.Int(), y)
+			}
+		}()
+		c.R.States++
+		c.R.Transitions++
+		if bad != "" {
+			fail('e', u.row, key, fmt.Sprintf("n=%d draws=(%d,%d) [row %d: P=%d; effective generator %d, first value %d], iterator placed at %d (one step before %d): %s", n, u.r1, u.r2, r.K, r.P, st.G, st.S, pred, tg, bad), rep)
+			c.Outcome("e:diverged")
+			continue
+		}
+		c.Outcome("e:conforms")
+	}
 }
